@@ -24,6 +24,21 @@ CHECKS = {
     "C08": ("E2", "bounded-exhaustive enumeration of all operator chains/trees up to 3 binary operators (+ unary prefixes) x valuations and of the operator table over boundary operands, against a reference evaluator",
             "All 16^3 operator triples as flat chains (with every one of 9 unary prefixes on every operand position), all 5 tree shapes printed with minimal and full parentheses, under 12 valuations; all 16 binary and 3 unary operators over 19^2 boundary operand pairs read from the device; ite laziness incl. the draw log; all literal radix forms. Results are observed un-truncated in a 64-bit virtual column and a 64-bit output column.",
             "Trusts refsem.rs::binop/unop/climb; valuations are a fixed boundary set (DESIGN section 10).", "6/C08"),
+    "C09": ("E2", "exhaustive depth-first walk of the prefix tree of token strings (pruned soundly through the token-meter hook) plus all character strings up to a length; totality and renderable error locations checked on every text",
+            "Every token string up to the depth bound over a 37-token alphabet (one or two tokens per lexical/grammatical class, plus the other reserved words at shallow depth), below the empty body and 15 block/statement-opening seed prefixes, for three headers; every string up to length 6 (thorough 7) over 16 characters incl. multi-byte ones as whole text and as body. from_str must return; every error location must lie inside the text on character boundaries; the diagnostic must render.",
+            "Pruning argument: DESIGN section 5.2 (the parse result is a function of the tokens pulled; a subtree is skipped only when the end-of-input token was not pulled). Native stack exhaustion is outside the property.", "6/C09"),
+    "C11": ("E2", "bounded-exhaustive enumeration of all signal lists (sequences with repetition) x all headers x a program menu against an independent well-formedness judgement (iff); every accepted case iterated",
+            "Every sequence of up to 3 (thorough 4) signals from a 10-signal menu (same names in different directions, a real A_out, names of virtual signals) x every ordered selection of up to 3 of 7 header columns x ~100 programs (C in every column incl. after bits and in dead code, reads in every expression position relative to the scope of lets and counters, declarations). with_signals must succeed exactly when the four clauses hold, never panic, and every accepted test must iterate to the end without an error item.",
+            "Trusts refsem::bind_judgement with the static scoping rule; programs cannot fail at run time for reasons other than binding.", "6/C11"),
+    "C12": ("E2", "same exhaustive token-tree walk and character strings as C09 plus every single edit of every valid program up to 3 statements, against an independent reference grammar (one direction: reference rejects => subject rejects)",
+            "For every enumerated text that the independent recogniser (own lexer + recursive descent, refgrammar.rs) rejects, from_str must return Err: unterminated/wrongly terminated blocks, end at top level, wrong row length, missing ; ) , unknown function, wrong arity, literal too large, bits width above 64 (incl. values aliasing small ones after a narrowing cast), duplicate header/declare names, header without line break; edits are token deletion/duplication/confusion-class replacement, line deletion/duplication, truncation at every byte, each ended in five ways.",
+            "Trusts refgrammar.rs as the definition of malformed; texts the reference accepts but the subject rejects are counted, not failed (none on the current tree).", "6/C12"),
+    "C19": ("E2", "bounded-exhaustive enumeration of programs x all layouts with at most 2 deviations; the generator records the line of each row",
+            "Every program up to 3 (thorough 4) statements that yields a row x every layout with <= 2 deviations (blank / whitespace-only / comment lines anywhere incl. directly after loop and while headers, blank lines before the header, CRLF on one line or all, trailing comment, missing final newline). line of every yielded row (every X/C expansion, every iteration) through the dynamic API, the static API and a generated .dig document must equal the line the generator put the row on.",
+            "The generating printer is the oracle; only the line field is compared.", "6/C19"),
+    "C20": ("E2", "bounded-exhaustive metamorphic exploration: every program x every layout-only rewriting with at most 2 deviations compared with the canonical layout (no reference semantics)",
+            "Every program up to 2 (thorough 3) statements over a token-boundary alphabet (literals in all radixes incl. as bits width and loop bound, multi-character operators, identifiers that start like keywords) and two malformed variants of each x every set of <= 2 deviations: blank space (spaces, tab, CR, form feed) in or removed from each gap, indentation, trailing space, appended comments, inserted blank/comment lines, CRLF, final newline, every other radix spelling of each literal. Verdict, static rows, dynamic rows and the vectors handed to the driver must be equal; line shifts by the lines inserted above.",
+            "Which token pairs may be written without a gap is decided by the reference lexer.", "6/C20"),
     "C18": ("E2", "bounded-exhaustive enumeration of all programs up to K statements; vars() compared with the reference environment after every row",
             "Same program space as C01 (plus X and C rows); after every yielded row vars() must equal the reference interpreter's flattened frame stack at the moment the row was evaluated.",
             "Trusts the reference interpreter; values after an error item or the end are not specified and only required not to panic.", "6/C18"),
